@@ -854,7 +854,10 @@ class ClsTerm(Term):
 
 # --------------------------------------------------------------------------- programs (term -> namespace)
 
-HEADER = "from tlg_prelude import *\nimport collections, collections.abc, dataclasses, datetime, decimal, enum, fractions, pathlib, re, typing, uuid\n"
+HEADER = (
+    "from tlg_prelude import *\nimport collections, collections.abc, dataclasses, datetime, decimal, enum, fractions, pathlib, re, typing, uuid\n"
+    "def call1(f, *a, **k):\n    return f(*a, **k)\ndef call2(f, *a, **k):\n    return call1(f, *a, **k)\ndef call3(f, *a, **k):\n    return call2(f, *a, **k)\n"
+)
 
 
 class Program:
